@@ -368,6 +368,44 @@ pub fn run(ctx: &mut RunCtx) -> Result<(), Violation> {
         }
     }
 
+    // ---- so is a draw that repeats the one before it (a stuck RNG): same script, same proof, 14 draws
+    {
+        let j = 1 + w.usize(13);
+        let env_a = ctx.env(&mut s);
+        let env_b = ctx.env(&mut s);
+        let prev = draw_of_scalar(&base_draws[j - 1]);
+        // the scripted RNG hands out the 64 substituted bytes verbatim: draw j-1 is re-encoded too, so
+        // that the two blocks are byte-identical
+        let subst = vec![(j - 1, prev.clone()), (j, prev)];
+        let mut r1 = ScriptedRng::with_subst(sc.rng_seed, subst.clone());
+        let mut r2 = ScriptedRng::with_subst(sc.rng_seed, subst);
+        let a = deploy::prove(&prover, &sc.prog, &sc.tape, &mut r1, PlonkVersion::V3, &env_a);
+        let b = deploy::prove(&prover, &sc.prog, &sc.tape, &mut r2, PlonkVersion::V3, &env_b);
+        ctx.st.fault("rng.repeated_draw");
+        ctx.st.eval(sig ^ 0x500 ^ j as u64, true);
+        match (a, b) {
+            (Ok((pa, _)), Ok((pb, _))) => {
+                if proof_bytes(&pa) != proof_bytes(&pb) {
+                    return Err(fail(format!("two proofs under the same RNG script (draw {} repeats draw {}) differ: randomness from somewhere else than the caller's RNG", j, j - 1)));
+                }
+                if r1.log.len() != 14 || r2.log.len() != 14 {
+                    return Err(fail(format!("with draw {} repeating draw {} the prover drew {} / {} scalars instead of 14", j, j - 1, r1.log.len(), r2.log.len())));
+                }
+                // the repeated draw is used as drawn: the proof equals the one in which only draw j is
+                // substituted by the (reduced) value of draw j-1
+                let mut r3 = ScriptedRng::with_subst(sc.rng_seed, vec![(j, draw_of_scalar(&base_draws[j - 1]))]);
+                let env_c = ctx.env(&mut s);
+                if let Ok((pc, _)) = deploy::prove(&prover, &sc.prog, &sc.tape, &mut r3, PlonkVersion::V3, &env_c) {
+                    if proof_bytes(&pc) != proof_bytes(&pa) {
+                        return Err(fail(format!("a draw that repeats its predecessor (draw {}) is not used as drawn", j)));
+                    }
+                }
+            }
+            (Err(_), Err(_)) => {}
+            _ => return Err(fail(format!("proving under the same RNG script (draw {} repeated) succeeds once and fails once", j))),
+        }
+    }
+
     // ---- different randomness: nothing is shared
     {
         let mut rng = ScriptedRng::new(sc.rng_seed ^ 0xFFFF_0000_FFFF);
